@@ -10,13 +10,16 @@
    ([pguard], RFC 9000 7.4.1).  [gm sid] is the largest MAX_STREAM_DATA value received for the stream.
 
    Transport parameters exist in two transcriptions (the tie feeds the one the tree contains): [OParams], the function
-   up to the repair of finding C06-F1, needs the guard on its values; [OParamsP], the repaired function, needs it only
-   when it restores remembered parameters ([PTicket]).  With 0-RTT accepted ([PAccepted]) [freach] puts NO condition
+   AS IT IS in /repo (finding C06-F1 is open), needs the guard on its values; [OParamsP], the function as the PROPOSED
+   repair docs/C06-fix-1.patch would make it (not applied), needs it only when it restores remembered parameters
+   ([PTicket]).  With 0-RTT accepted ([PAccepted]) [freach] puts NO condition
    on the values -- the function refuses a lowered value itself (accepted_0rtt_parameters_never_lower).  With 0-RTT
    not accepted ([PRejected]) the values may be LOWER than those held; the only conditions are that they are varints
    and that every stream existing at that moment was opened locally (the function runs while EncryptedExtensions is
-   handled, before any peer frame can be read; the tie checks it on every scenario).  So on the repaired tree every
-   theorem over [freach] below holds without an assumption on the transport parameters' values. *)
+   handled, before any peer frame can be read; the tie checks it on every scenario of a repaired tree).  So on a tree
+   with the proposed repair every theorem over [freach] below would hold without an assumption on the transport
+   parameters' values; on /repo as it is, the histories the tie produces contain [OParams] only and the guard on its
+   values is a genuine assumption (refuted without it: stream_within_limit_lowered_parameters_refuted). *)
 From Coq Require Import ZArith List Bool.
 From AQ Require Import lib.Base model.RangeSet model.StreamSend model.FlowSend proofs.StreamSendP proofs.FlowSendP proofs.FlowSendP2 proofs.FlowSendP3.
 
@@ -105,7 +108,7 @@ Theorem blocked_streams_silent : forall c gm sid, freach c gm -> is_local c sid 
 Proof. exact blocked_streams_silent_l. Qed.
 Print Assumptions blocked_streams_silent.
 
-(* REFUTED without the parameter guard (candidate finding C06-F1): remembered 0-RTT parameters 100, the
+(* THE TREE AS IT IS: REFUTED without the parameter guard (open known finding C06-F1): remembered 0-RTT parameters 100, the
    handshake delivers 50; the stream created before keeps 100 and reaches highest_offset 80 > 50 = everything
    the peer has granted for it. *)
 Theorem stream_within_limit_lowered_parameters_refuted :
@@ -192,9 +195,13 @@ Theorem straddling_frame_witness :
 Proof. exact straddle_witness_l. Qed.
 Print Assumptions straddling_frame_witness.
 
-(* ---- the repaired _parse_transport_parameters (repair of finding C06-F1) ---- *)
+(* ---- the PROPOSED repair of finding C06-F1 (docs/C06-fix-1.patch; NOT applied to the tree: C06-F1 is an open known
+   finding).  The theorems of this section are statements about [OParamsP], the transcription of
+   _parse_transport_parameters AS THE PATCH WOULD MAKE IT; the tie feeds [OParamsP] only to a tree whose source contains
+   the repair, and [OParams] -- the function as it is, about which stream_within_limit_lowered_parameters_refuted
+   speaks -- to every other tree, /repo included. ---- *)
 
-(* 0-RTT accepted, ANY state and ANY values: the function stores the six limits, none below the value held, or it
+(* [proposed repair] 0-RTT accepted, ANY state and ANY values: the function stores the six limits, none below the value held, or it
    stops with PROTOCOL_VIOLATION; either way no limit is lowered and nothing but the limits changes *)
 Theorem accepted_0rtt_parameters_never_lower : forall c md bl br un sb su,
   let r := fstep c (OParamsP PAccepted md bl br un sb su) in
@@ -205,7 +212,7 @@ Theorem accepted_0rtt_parameters_never_lower : forall c md bl br un sb su,
 Proof. exact accepted_never_lowers_l. Qed.
 Print Assumptions accepted_0rtt_parameters_never_lower.
 
-(* 0-RTT not accepted, ANY state and ANY values: the six limits become exactly the received values (absent = 0); every
+(* [proposed repair] 0-RTT not accepted, ANY state and ANY values: the six limits become exactly the received values (absent = 0); every
    stream is held back with highest_offset 0, the credit counter is 0, and no _write_stream_frame call is made for
    any stream until _unblock_streams releases it under the new limits *)
 Theorem rejected_0rtt_forgets : forall c md bl br un sb su,
@@ -220,7 +227,7 @@ Theorem rejected_0rtt_forgets : forall c md bl br un sb su,
 Proof. exact rejected_forgets_l. Qed.
 Print Assumptions rejected_0rtt_forgets.
 
-(* after the handshake parameters are processed -- LOWERED ones included -- no STREAM frame exceeds the limits in
+(* [proposed repair] after the handshake parameters are processed -- LOWERED ones included -- no STREAM frame exceeds the limits in
    force: every _write_stream_frame call made in a reachable state is for a stream inside the stream-count limit in
    force; its max_offset is within the stream's limit, which the peer granted under the parameters in force (or by
    MAX_STREAM_DATA), and within the connection credit, where the counter is the sum of the highest offsets and stays
@@ -237,7 +244,7 @@ Theorem latest_limits_respected : forall c gm sid ms mo o c' t,
 Proof. exact latest_limits_respected_l. Qed.
 Print Assumptions latest_limits_respected.
 
-(* the scenario of finding C06-F1 under the repaired function (the hypotheses above are satisfiable by a history that
+(* [proposed repair] the scenario of finding C06-F1 under the repaired function (the hypotheses above are satisfiable by a history that
    lowers the limits): remembered limit 100, 20 bytes sent in 0-RTT, 0-RTT not accepted, the handshake grants 50: the
    stream is released with limit 50 and highest_offset 0; the lost 20 bytes and 60 new ones are cut into ONE frame that
    stops at 50 and is charged 50; the next call yields nothing; with 0-RTT accepted the same parameters are refused
@@ -300,3 +307,19 @@ Theorem queue_rotation_fair : forall q gone served s, In s q -> memz s gone = fa
   (forall n, ahead s (q ++ (n :: nil)) = ahead s q).
 Proof. exact queue_rotation_fair_l. Qed.
 Print Assumptions queue_rotation_fair.
+
+(* ---- progress for a whole pass of the stream loop ---- *)
+
+(* [stream_loop c q budgets]: the loop of _write_application over the queue q (per stream: STOP_SENDING branch, then
+   RESET_STREAM or STREAM), the i-th visited stream's _write_stream_frame call being offered budgets[i]; the list
+   ending early = QuicPacketBuilderStop.  If stream s is waiting (not held back, not reset, a pending range below
+   both limits or a pending FIN, C10-legitimate sender) and every call up to and including the one for s is offered a
+   positive budget, the pass cuts a STREAM frame for s or for a stream visited before s: the only thing that can take
+   s's turn away is a frame for an earlier stream -- which, if it carried new data, then moves behind s
+   (queue_rotation_fair). *)
+Theorem stream_loop_progress : forall q c budgets s t g,
+  In s q -> (length (ahead s q) < length budgets)%nat -> Forall (fun ms => 0 < ms) budgets ->
+  waiting c s t g ->
+  exists x o, In (x, o) (fst (stream_loop c q budgets)) /\ frame_in o /\ (x = s \/ In x (ahead s q)).
+Proof. exact loop_progress_l. Qed.
+Print Assumptions stream_loop_progress.
